@@ -314,5 +314,75 @@ def c_cache(chk):
 
 
 def c_callers(chk):
-    """EOM._updateGrid and WallGoManager.buildGrid call Grid3Scales with arguments satisfying the asserts."""
-    pass
+    """EOM._updateGrid and WallGoManager.buildGrid call Grid3Scales with arguments satisfying the asserts of _updateParameters
+    (so the class invariant G3_INV holds for every grid the solver uses)."""
+    # ---- EOM._updateGrid
+    fn = "equationOfMotion.EOM._updateGrid"
+    widths = [real("width0"), real("width1")]
+    offsets = [real("offset0"), real("offset1")]
+    vmid = real("velocityMid")
+    sm, rr, mfp = real("grid.smoothing"), real("grid.ratioPointsWall"), real("meanFreePathScale")
+    for off_eq in (False, True):
+        def mk(it, off_eq=off_eq):
+            for c in [Gt(w, 0) for w in widths] + [Gt(vmid, -1), Lt(vmid, 1), Gt(sm, 0), Gt(rr, 0), Lt(rr, 1), Gt(mfp, 0)]:
+                it.assume(c)
+            grid = SymObj("Grid3Scales", "grid3Scales", label="grid", attrs={"smoothing": sm, "ratioPointsWall": rr})
+            eom = SymObj("EOM", "equationOfMotion", label="eom", attrs={"grid": grid, "meanFreePathScale": mfp, "includeOffEq": off_eq})
+            wp = SymObj("WallParams", "containers", label="wallParams", attrs={"widths": as_array(widths), "offsets": as_array(offsets)})
+            return eom, [wp, vmid], {}, {}
+
+        def change(it, so, a, k):
+            it.event(kind="contract-call", name="changePositionFalloffScale", args=list(a))
+        paths = sel(chk.summarize("equationOfMotion", "EOM._updateGrid", mk, registry={"Grid3Scales.changePositionFalloffScale": change}))
+        if not paths:
+            chk.undecided.append("_updateGrid: no returning path")
+        for i, p in enumerate(paths):
+            calls = [e for e in p.events if e.get("name") == "changePositionFalloffScale"]
+            if len(calls) != 1:
+                chk.undecided.append("_updateGrid: expected one changePositionFalloffScale call")
+                continue
+            tI, tO, Lg, zcg = calls[0]["args"]
+            tag = f"{'offeq' if off_eq else 'eq'}.{i}"
+            chk.vc(f"_updateGrid.establishes-grid-invariant.{tag}", p.pc,
+                   And(Gt(Lg, 0), Gt(tI, Lg * (sym.R(1, 2) + sm) / rr), Gt(tO, Lg * (sym.R(1, 2) + sm) / rr)), func=fn)
+            # thickness and centre come from the envelope of all walls: every wall (centre -offset*width, half-width width) is inside
+            env_lo = zcg + Lg * sp.log(2) / 2 - Lg
+            env_hi = zcg + Lg * sp.log(2) / 2 + Lg
+            chk.vc(f"_updateGrid.envelope-covers-every-wall.{tag}", p.pc,
+                   And(*[And(Le(env_lo, (-1 - o) * w), Ge(env_hi, (1 - o) * w)) for w, o in zip(widths, offsets)]), func=fn)
+    chk.canary("_updateGrid.establishes-grid-invariant", [Gt(w, 0) for w in widths], sp.false, func=fn)
+    # ---- WallGoManager.buildGrid
+    fn2 = "manager.WallGoManager.buildGrid"
+    w0, mf, T0, N_, M_ = real("wallThicknessIni"), real("meanFreePathScale"), real("Tnucl"), integer("gridN"), integer("gridM")
+
+    def g3new(it, cref, a, k):
+        it.event(kind="contract-call", name="Grid3Scales", args=list(a), kwargs=dict(k))
+        return SymObj("Grid3Scales", "grid3Scales", label=it.fresh_name("grid3"))
+
+    def mk2(it):
+        for c in (Gt(w0, 0), Gt(mf, 0), Gt(T0, 0), Gt(sm, 0), Gt(rr, 0), Lt(rr, 1)):
+            it.assume(c)
+        cfg = SymObj(None, None, label="config", attrs={"configGrid": SymObj(None, None, label="configGrid", attrs={
+            "momentumGridSize": N_, "spatialGridSize": M_, "ratioPointsWall": rr, "smoothing": sm})})
+        man = SymObj("WallGoManager", "manager", label="manager", attrs={"config": cfg,
+                     "phasesAtTn": SymObj("PhaseInfo", "containers", label="phasesAtTn", attrs={"temperature": T0})})
+        return man, [w0, mf, real("momentumScale")], {}, {}
+    paths = chk.summarize("manager", "WallGoManager.buildGrid", mk2, registry={"Grid3Scales.__new__": g3new})
+    n_ok = 0
+    for i, p in enumerate(sel(paths)):
+        calls = [e for e in p.events if e.get("name") == "Grid3Scales"]
+        if len(calls) != 1:
+            chk.undecided.append("buildGrid: expected one Grid3Scales construction")
+            continue
+        n_ok += 1
+        a = calls[0]["args"]
+        M2, N2, tI, tO, Lg, mom, r2, s2 = a[:8]
+        chk.vc(f"buildGrid.establishes-grid-invariant.{i}", p.pc,
+               And(Gt(Lg, 0), Gt(tI, Lg * (sym.R(1, 2) + s2) / r2), Gt(tO, Lg * (sym.R(1, 2) + s2) / r2), Eq(r2, rr), Eq(s2, sm)), func=fn2)
+        chk.vc(f"buildGrid.lengths-in-units-of-inverse-Tnucl.{i}", p.pc, And(Eq(Lg * T0, w0), Ge(tI * T0, mf), Eq(tI, tO)), func=fn2)
+        chk.vc(f"buildGrid.odd-momentum-grid.{i}", p.pc, Ne(sp.Mod(N_, 2), 0), func=fn2)
+    if n_ok == 0:
+        chk.undecided.append("buildGrid: no path constructs a grid")
+    for p in sel(paths, "raise"):
+        if p.exc.cls != "ValueError":
+            chk.undecided.append(f"buildGrid raises {p.exc.cls}")
